@@ -27,6 +27,8 @@ pub struct GenCtx {
     pub presence: Vec<bool>,
     /// dynamic dimensions chosen, in order
     pub dims: Vec<usize>,
+    /// matrix parts with plain entries: (ordinal of their first number in reading order, rows, columns)
+    pub shapes: Vec<(usize, usize, usize)>,
 }
 
 #[derive(Clone, Copy, PartialEq)]
@@ -42,7 +44,7 @@ enum Force {
 
 impl GenCtx {
     pub fn new(seed: u64, max_dim: usize, simple: bool, present_permille: u32) -> Self {
-        GenCtx { rng: Rng::new(seed), max_dim, simple, present_permille, counter: 0, force: Force::None, lead: false, presence: vec![], dims: vec![] }
+        GenCtx { rng: Rng::new(seed), max_dim, simple, present_permille, counter: 0, force: Force::None, lead: false, presence: vec![], dims: vec![], shapes: vec![] }
     }
     fn forced(&mut self) -> Option<f64> {
         let lead = std::mem::replace(&mut self.lead, false);
@@ -139,16 +141,20 @@ impl GenCtx {
 
 /// A type the simulator can build from a seed, with the reading its rendering must have.
 pub trait Gen: Sized + Display + Clone {
+    /// one number per entry (f64 / f32): the rows of a matrix part of such entries can be read off the text
+    const PLAIN: bool = false;
     fn gen(g: &mut GenCtx) -> (Self, Vec<Tok>);
 }
 
 impl Gen for f64 {
+    const PLAIN: bool = true;
     fn gen(g: &mut GenCtx) -> (Self, Vec<Tok>) {
         let v = g.f64();
         (v, vec![Tok::F64(v.to_bits())])
     }
 }
 impl Gen for f32 {
+    const PLAIN: bool = true;
     fn gen(g: &mut GenCtx) -> (Self, Vec<Tok>) {
         let v = g.f32();
         (v, vec![Tok::F32(v.to_bits())])
@@ -197,6 +203,9 @@ where
         return (Derivative::none(), vec![]);
     }
     let (nr, nc) = (r.value(), c.value());
+    if T::PLAIN && nr >= 2 && nc >= 2 {
+        g.shapes.push((g.counter as usize, nr, nc));
+    }
     // most parts ordinary; some all-zero, all-equal, or with every entry's innermost real part zero
     g.force = match g.rng.below(100) {
         0..=7 => Force::Zero,
@@ -279,11 +288,12 @@ pub struct Subject {
     pub expect: Vec<Tok>,
     pub presence: Vec<bool>,
     pub dims: Vec<usize>,
+    pub shapes: Vec<(usize, usize, usize)>,
 }
 
 fn make<T: Gen + Send + 'static>(name: &'static str, g: &mut GenCtx) -> Subject {
     let (v, expect) = T::gen(g);
-    Subject { type_name: name, value: Box::new(v), expect, presence: g.presence.clone(), dims: g.dims.clone() }
+    Subject { type_name: name, value: Box::new(v), expect, presence: g.presence.clone(), dims: g.dims.clone(), shapes: g.shapes.clone() }
 }
 
 type Maker = fn(&'static str, &mut GenCtx) -> Subject;
